@@ -6,7 +6,7 @@
     broadcasts, any thread counts), every interleaving of caller and workers,
     any subset of panicking calls, spurious wake-ups included.  [code_cfg] is
     the configuration read from pool.rs by tools/extract_consts.py. *)
-From DivanV Require Import Base.Res Generated.Consts Model.Pool Proofs.Pool Proofs.PoolLive Proofs.PoolCalls
+From DivanV Require Import Base.Res Generated.Consts Generated.Consts2 Model.Pool Proofs.Pool Proofs.PoolLive Proofs.PoolCalls
   Proofs.PoolViews Proofs.PoolSlots Proofs.PoolExamples Proofs.PoolBool.
 Import PoolM.
 
@@ -146,3 +146,11 @@ Theorem C06_nonvacuous :
               /\ r_b r = 1 /\ r_n r = 2 /\ r_slots r = [Some 0; None; Some 2].
 Proof. exact nonvacuous. Qed.
 Print Assumptions C06_nonvacuous.
+
+(** Obligation on the source text (tools/extract_consts2.py): in
+    [broadcast_task] the caught panic payload of call 0 is dropped textually
+    after the wait loop, i.e. at the model's return step ([C06_caller_past_loop]
+    then makes an escaping drop-panic harmless). *)
+Theorem C06_payload_dropped_after_wait : pool_payload_drop_after_wait = true.
+Proof. reflexivity. Qed.
+Print Assumptions C06_payload_dropped_after_wait.
